@@ -11,6 +11,8 @@ does the same on arrays of 64 `uint16_t`.
 namespace Tbfmm
 
 def weight (p : Nat) : Nat := 2 ^ (16 * (p % 64))
+/-- 16 counters of 64 bits (periodic runs: image counts exceed 16 bits) -/
+def weightWide (p : Nat) : Nat := 2 ^ (64 * (p % 16))
 
 structure State where
   mult : Std.HashMap (Nat × Nat) Nat := {}     -- (level, index) ↦ multipole
